@@ -17,6 +17,8 @@ SEMANTIC = [
     (re.compile(r"^invariant not satisfied before loop"), "inv-established"),
     (re.compile(r"^loop invariant not satisfied"), "inv"),
     (re.compile(r"^assertion failed"), "assert"),
+    (re.compile(r"^requires not satisfied"), "assert"),
+    (re.compile(r"^assertion failed in body|^assert forall"), "assert"),
     (re.compile(r"^possible arithmetic underflow/overflow"), "overflow"),
     (re.compile(r"^possible division by zero"), "div0"),
     (re.compile(r"^possible bit shift underflow/overflow"), "overflow"),
